@@ -16,18 +16,19 @@ theorem C12_reject (ip : IsPrint) (c : ECfg) (g : RefHook) (v : GoVal) (h : ¬(0
 /-- The source's `highestProtocol` is the model's 5. -/
 theorem C12_facts : Generated.highestProtocol = 5 := by decide
 
-/-- **C12 (conformance, protocols 1–5).** For EVERY value (any nesting; application structs, unsigned
+/-- **C12 (conformance, protocols 0–5).** For EVERY value (any nesting; application structs, unsigned
     ints, maps and Dicts with any keys included) whose payloads are below the 4 GiB of the 4-byte
-    length forms, and every protocol p in 1..5: if `Encode` returns no error, its output, scanned with
+    length forms, and every protocol p in 0..5: if `Encode` returns no error, its output, scanned with
     the independent opcode table of `Opcodes.lean`, is one framed pickle — it begins with `PROTO p`
     exactly when p ≥ 2 and contains no other PROTO, every opcode was introduced in a protocol ≤ p,
     the stack discipline holds at every opcode, and the single STOP at the very end finds exactly one
-    object.  (Protocol 0: the text forms need newline-freeness of float text and of the two codecs'
-    output, which is not proved; decided per run by the same scanner on model and implementation.) -/
-theorem C12_conforms_bin (ip : IsPrint) (c : ECfg) (v : GoVal) (hp1 : 1 ≤ c.proto) (hp5 : c.proto ≤ 5)
-    (hs : sizesOK v = true) (he : (encodeTop ip c none v).err = none) :
+    object.  Hypotheses: LF is not printable in the IsPrint table (regenerated fact, `C03_isprint_lf`),
+    and at protocol 0 the `%g` text of each float64 in the value holds no newline (`FloatsLF`; a
+    property of strconv that is not proved here). The two text codecs' outputs are proved newline-free. -/
+theorem C12_conforms (ip : IsPrint) (hip : ip 10 = false) (c : ECfg) (v : GoVal) (hp0 : 0 ≤ c.proto) (hp5 : c.proto ≤ 5)
+    (hs : sizesOK v = true) (hf : FloatsLF c (floatsOf v)) (he : (encodeTop ip c none v).err = none) :
     conforms c.proto.toNat (flat (encodeTop ip c none v)) = .ok () := by
-  have hrange : (0 ≤ c.proto ∧ c.proto ≤ 5) := ⟨by omega, hp5⟩
+  have hrange : (0 ≤ c.proto ∧ c.proto ≤ 5) := ⟨hp0, hp5⟩
   have hdr_err : (if c.proto ≥ 2 then emit [0x80, UInt8.ofNat c.proto.toNat] else Out.nil).err = none := by
     split <;> rfl
   have etop : encodeTop ip c none v =
@@ -36,7 +37,7 @@ theorem C12_conforms_bin (ip : IsPrint) (c : ECfg) (v : GoVal) (hp1 : 1 ≤ c.pr
   rw [etop] at he ⊢
   obtain ⟨h12, _⟩ := seq_err_none he
   obtain ⟨_, hev⟩ := seq_err_none h12
-  obtain ⟨effs, hscan, heff⟩ := scans_val ip c (by omega) v hs hev
+  obtain ⟨effs, hscan, heff⟩ := scans_val ip c hip hp0 v hs hf hev
   have hlen := Scans.length_le hscan
   rw [flat_seq _ _ h12, flat_seq _ _ hdr_err, flat_emit]
   unfold conforms scan
@@ -83,9 +84,16 @@ theorem C12_conforms_bin (ip : IsPrint) (c : ECfg) (v : GoVal) (hp1 : 1 ≤ c.pr
         ((enc ip c v).chunks.flatten.length - effs.length + 1 + 1) + effs.length := by
       simp only [List.length_append, List.length_cons, List.length_nil]; omega
     rw [hfuel, hrun, hstop]
-    have hp : c.proto.toNat = 1 := by omega
+    have hp : c.proto.toNat < 2 := by omega
     have hm' : ¬ (max maxp' 0 > c.proto.toNat) := by omega
-    simp [hp] at hm' ⊢
-    exact hm'
+    have h2' : ¬ (c.proto.toNat ≥ 2) := by omega
+    simp only [h2', decide_false, Bool.false_and, Bool.false_eq_true, if_false, List.isEmpty_nil, Bool.not_true, hp, decide_true,
+      Bool.true_and, bne_self_eq_false, show ¬ (0 > 1) by omega, hm']
+
+/-- From protocol 1 on no text form is used: no hypothesis about floats. -/
+theorem C12_conforms_bin (ip : IsPrint) (hip : ip 10 = false) (c : ECfg) (v : GoVal) (hp1 : 1 ≤ c.proto) (hp5 : c.proto ≤ 5)
+    (hs : sizesOK v = true) (he : (encodeTop ip c none v).err = none) :
+    conforms c.proto.toNat (flat (encodeTop ip c none v)) = .ok () :=
+  C12_conforms ip hip c v (by omega) hp5 hs (fun _ _ => Or.inl hp1) he
 
 end Ogorek
